@@ -41,6 +41,21 @@ def spell_bound(rng, b_ns, e_ns, default_unit, style=None):
     return '[%s%s%s%s]' % (dec(b_ns, ub), ub, sep, dec(e_ns, ub)), style     # end inherits the unit of begin
 
 
+def spelling(rng, f):
+    """an equivalent spelling of every bound of f with explicit units / another default unit / a sampling period in another unit:
+    {'spec': text, 'period': [p, unit, tol], 'unit': default unit}; None when f has no bounded operator"""
+    if not (fml.ops(f) & (fml.TUN | fml.TBIN)):
+        return None
+    periods = [(1, 's'), (500, 'ms'), (250, 'ms'), (2, 's'), (100, 'us'), (1000, 'ms'), (20, 'ns'), (1, 'ms')]
+    p, pu = rng.choice(periods)
+    pns = p * U[pu]
+    alts = [(pns // U[u], u) for u in U if pns % U[u] == 0]
+    period = rng.choice(alts)
+    default_unit = rng.choice(list(U))
+    text = fml.to_text(f, lambda b, e: spell_bound(rng, b * pns, e * pns, default_unit)[0])
+    return {'spec': 'out = ' + text, 'period': [period[0], period[1], 0.1], 'unit': default_unit, 'fkey': fml.to_sx(f)}
+
+
 class C08(Check):
     PID = 'C08'
     RULE = ('seeded random formulas with bounded operators; sampling period drawn from {1s, 500ms, 250ms, 2s, 100us, ...} and every bound (in samples) '
@@ -199,7 +214,7 @@ class C08(Check):
 
     SHRINK = False
 
-    def still_fails(self, model, c):
+    def still_fails(self, model, c, shape=None):
         return False, None
 
     def signature(self, c, detail):
